@@ -45,9 +45,13 @@ VARIABLES
   curve,     \* equity curve: Seq([t, eq])
   allocs,    \* allocation records: Seq([t, w]) with w : [asset -> weight]
   flog,      \* every fill so far: Seq([t, asset, qty, px, comm])
-  failure    \* [t, cls] of the exception that ended the run, or [t |-> 0, cls |-> "none"]
+  failure,   \* [t, cls] of the exception that ended the run, or [t |-> 0, cls |-> "none"]
+  \* signals (only for the signal-driven alpha model "topn"; constant otherwise): the momentum signal's
+  strk,      \* tracked assets, in the order they were added
+  swin,      \* [asset -> bounded window of closes]  (capacity lookback + 1)
+  warm       \* SignalsCollection.warmup: number of updates so far
 
-svars == << cfg, ci, ek, pc, frame, events, sched, pend, curve, allocs, flog, failure >>
+svars == << cfg, ci, ek, pc, frame, events, sched, pend, curve, allocs, flog, failure, strk, swin, warm >>
 allvars == << vars, svars >>
 
 Cfg == cfg
@@ -76,8 +80,24 @@ QuotesAt(t) == [a \in Assets |-> [bid |-> QuoteAt(frame[a], t), ask |-> QuoteAt(
 (* ---------------- universe, alpha ---------------- *)
 EntryOf(a)    == IF a \in DOMAIN Cfg.entry THEN Cfg.entry[a] ELSE -1                \* -1 : never a member
 UniverseAt(t) == { a \in Assets : EntryOf(a) # -1 /\ EntryOf(a) <= t }             \* static = entry 0 for every member
+HasSignals == Cfg.alpha = "topn"
+\* the universe's own iteration order (the harness builds universes in ascending symbol order)
+UniverseSeq(t) == SelectSeq(AssetSeq, LAMBDA a : a \in UniverseAt(t))
+\* N-period momentum of a window: last / first - 1 (0 while there is no return yet)
+MomOf(w) == IF Len(w) < 2 THEN << 0, 1 >> ELSE << w[Len(w)] - w[1], w[1] >>
+\* examples/momentum_taa.py TopNMomentumAlphaModel: zero for every universe member; once the signals have
+\* warmed up, weight 1/N (recorded here in units of 1/N, i.e. 1) for the N tracked assets of highest momentum,
+\* ties broken by the order in which the signal started tracking them (Python's stable sort, reverse=True)
+TopN ==
+  LET idx(a) == CHOOSE i \in 1..Len(strk) : strk[i] = a
+      T == { strk[i] : i \in 1..Len(strk) }
+      before(b, a) == \/ RCmpS(MomOf(swin[b]), MomOf(swin[a])) > 0
+                      \/ (RCmpS(MomOf(swin[b]), MomOf(swin[a])) = 0 /\ idx(b) < idx(a))
+  IN  { a \in T : Cardinality({ b \in T : before(b, a) }) < Cfg.topn }
 AlphaAt(t) == IF Cfg.alpha = "fixed" THEN Cfg.weights                              \* the same dictionary at every rebalance
-              ELSE [a \in UniverseAt(t) |-> 1]                                     \* universe-driven single signal
+              ELSE IF Cfg.alpha = "single" THEN [a \in UniverseAt(t) |-> 1]         \* universe-driven single signal
+              ELSE [a \in UniverseAt(t) \cup (IF warm >= Cfg.lookback THEN TopN ELSE {}) |->
+                      IF warm >= Cfg.lookback /\ a \in TopN THEN 1 ELSE 0]
 
 (* ---------------- schedule ---------------- *)
 ScheduleOf(c) ==
@@ -100,6 +120,9 @@ Init ==
   /\ events = CK!ClockEvents(Cfg.start, Cfg.end, FALSE, FALSE)
   /\ sched = ScheduleOf(Cfg)
   /\ pc = IF events = << >> THEN "done" ELSE "update"
+  /\ strk = IF cfg.alpha = "topn" THEN SelectSeq(AssetSeq, LAMBDA a : a \in DOMAIN cfg.entry /\ cfg.entry[a] # -1 /\ cfg.entry[a] <= cfg.start)
+            ELSE << >>                                 \* Signal.__init__: universe.get_assets(start_dt)
+  /\ swin = [a \in {} |-> << >>] /\ warm = 0
   \* SimulatedBroker(start, initial_funds = cash); create_portfolio; subscribe everything to it
   /\ now = Cfg.start /\ master = 0 /\ created = << PID >>
   /\ cash = (PID :> Cfg.cash) /\ clk = (PID :> Cfg.start) /\ pos = (PID :> << >>)
@@ -121,8 +144,23 @@ SUpdate ==
   /\ Update(Ev.t)
   /\ flog' = flog \o LogFills(batch')
   /\ IF err' # "ok" THEN pc' = "failed" /\ failure' = [t |-> Ev.t, cls |-> err']
-     ELSE pc' = (IF Due(Ev.t) THEN "rebalance" ELSE "equity") /\ failure' = failure
-  /\ UNCHANGED << cfg, ci, ek, frame, events, sched, pend, curve, allocs >>
+     ELSE pc' = (IF HasSignals /\ Ev.k = 2 THEN "signals" ELSE IF Due(Ev.t) THEN "rebalance" ELSE "equity") /\ failure' = failure
+  /\ UNCHANGED << cfg, ci, ek, frame, events, sched, pend, curve, allocs, strk, swin, warm >>
+
+\* signals.update(dt) at a market close: first the assets that have entered the universe are added (in the
+\* universe's order), then every tracked asset receives ONE observation - the quote at that close
+SSignals ==
+  /\ pc = "signals"
+  /\ LET newly == SelectSeq(UniverseSeq(Ev.t), LAMBDA a : \A i \in 1..Len(strk) : strk[i] # a)
+         trk   == strk \o newly
+     IN  /\ strk' = trk
+         /\ swin' = [a \in { trk[i] : i \in 1..Len(trk) } |->
+                       LET old == IF a \in DOMAIN swin THEN swin[a] ELSE << >>
+                           w   == Append(old, quote[a].ask)
+                       IN  IF Len(w) > Cfg.lookback + 1 THEN Tail(w) ELSE w]
+  /\ warm' = warm + 1
+  /\ pc' = IF Due(Ev.t) THEN "rebalance" ELSE "equity"
+  /\ UNCHANGED << vars, cfg, ci, ek, frame, events, sched, pend, curve, allocs, flog, failure >>
 
 \* the portfolio construction model at a due instant
 PcmCase(t) ==
@@ -150,7 +188,7 @@ SRebalance ==
                      os == PC!Orders(c, tq)
                  IN  /\ pend' = [i \in 1..Len(os) |-> << AssetSeq[os[i][1]], os[i][2] >>]
                      /\ pc' = "exec" /\ failure' = failure
-  /\ UNCHANGED << vars, cfg, ci, ek, frame, events, sched, curve, flog >>
+  /\ UNCHANGED << vars, cfg, ci, ek, frame, events, sched, curve, flog, strk, swin, warm >>
 
 \* execution handler: submit one order ...
 SExec ==
@@ -159,14 +197,14 @@ SExec ==
      THEN /\ pc' = "equity" /\ UNCHANGED << vars, pend >>
      ELSE /\ SubmitOrder(PID, Head(pend)[1], Head(pend)[2])
           /\ pc' = "execupd" /\ pend' = Tail(pend)
-  /\ UNCHANGED << cfg, ci, ek, frame, events, sched, curve, allocs, flog, failure >>
+  /\ UNCHANGED << cfg, ci, ek, frame, events, sched, curve, allocs, flog, failure, strk, swin, warm >>
 \* ... then broker.update(dt) again (fills at once if the instant is in exchange hours)
 SExecUpd ==
   /\ pc = "execupd"
   /\ Update(Ev.t)
   /\ flog' = flog \o LogFills(batch')
   /\ pc' = "exec"
-  /\ UNCHANGED << cfg, ci, ek, frame, events, sched, pend, curve, allocs, failure >>
+  /\ UNCHANGED << cfg, ci, ek, frame, events, sched, pend, curve, allocs, failure, strk, swin, warm >>
 
 \* equity sample at a market close, then on to the next event (whose quotes become current)
 SEquity ==
@@ -177,9 +215,9 @@ SEquity ==
   /\ quote' = IF ek + 1 > Len(events) THEN quote ELSE QuotesAt(events[ek + 1].t)
   /\ call' = [op |-> "price"] /\ batch' = << >>  \* for the broker this step is a move of the quotes
   /\ UNCHANGED << now, master, created, cash, clk, pos, hist, queue, fee, err, ledger, ext, net, seen, oidNext, done >>
-  /\ UNCHANGED << cfg, ci, frame, events, sched, pend, allocs, flog, failure >>
+  /\ UNCHANGED << cfg, ci, frame, events, sched, pend, allocs, flog, failure, strk, swin, warm >>
 
-SNext == SUpdate \/ SRebalance \/ SExec \/ SExecUpd \/ SEquity
+SNext == SUpdate \/ SSignals \/ SRebalance \/ SExec \/ SExecUpd \/ SEquity
 SSpec == Init /\ [][SNext]_allvars
 
 (* ======================= properties ======================= *)
@@ -230,13 +268,28 @@ C19_Membership ==
     /\ \A i \in 1..Len(flog) : EntryOf(flog[i].asset) # -1 /\ EntryOf(flog[i].asset) <= flog[i].t
     /\ \A a \in DOMAIN pos[PID] : EntryOf(a) # -1 /\ EntryOf(a) <= now
 
+\* ---- C16 (in-backtest cadence, model level) ----
+\* every tracked asset's window holds the most recent lookback+1 closes of the market closes processed since
+\* it entered the universe, one per business day; assets not yet in the universe have no window
+ClosesFed(a) == SelectSeq(events, LAMBDA e : e.k = 2 /\ a \in UniverseAt(e.t)
+                                              /\ (ek > Len(events) \/ e.t < Ev.t \/ (e.t = Ev.t /\ pc \notin {"update", "signals"})))
+C16_SessionCadence ==
+  HasSignals =>
+    /\ \A a \in DOMAIN swin :
+         LET cl == ClosesFed(a)
+             n  == Len(cl)
+             k  == IF n > Cfg.lookback + 1 THEN Cfg.lookback + 1 ELSE n
+         IN  swin[a] = [i \in 1..k |-> QuoteAt(frame[a], cl[n - k + i].t)]
+    /\ warm = Cardinality({ i \in 1..Len(events) : events[i].k = 2 /\
+                              (ek > Len(events) \/ events[i].t < Ev.t \/ (events[i].t = Ev.t /\ pc \notin {"update", "signals"})) })
+
 \* ---- C07 (model level) ----
 \* The run reads the market only through `quote`, and the quotes in force while the event at time t is
 \* processed are those of the market TRUNCATED after t's day: rewriting or removing any later bar changes
 \* nothing that has happened so far.  (The real twin runs confront the code with exactly that rewriting.)
 TruncBars(bars, t) == [d \in { x \in DOMAIN bars : At(x, OPEN) <= t } |-> bars[d]]
 C07_Causal ==
-  (pc \in {"update", "rebalance", "exec", "execupd", "equity"} /\ ek <= Len(events)) =>
+  (pc \in {"update", "signals", "rebalance", "exec", "execupd", "equity"} /\ ek <= Len(events)) =>
      \A a \in Assets :
        quote[a].ask = (IF a \in DOMAIN Cfg.market THEN QuoteAt(FrameOf(TruncBars(Cfg.market[a], Ev.t)), Ev.t) ELSE 0)
 \* and every recorded output is stamped no later than the event being processed
